@@ -856,13 +856,13 @@ Proof.
       * rewrite (nth_error_upd st k0 r _ Er). simpl. reflexivity.
   - simpl. split; [exact Hinv|]. rewrite Er. simpl. reflexivity.
   - destruct (pts && g_esri (r_g r)); simpl.
-    + split; [exact Hinv|]. match goal with |- read_ok (_, option_map _ ?e) => destruct e end; exact I.
+    + split; [exact Hinv|]. first [exact I | match goal with |- read_ok (_, option_map _ ?e) => destruct e end; exact I].
     + split.
       * apply Forall_upd; [exact Hinv|]. split; simpl; auto.
-      * match goal with |- read_ok (_, option_map _ ?e) => destruct e end; exact I.
+      * first [exact I | match goal with |- read_ok (_, option_map _ ?e) => destruct e end; exact I].
   - simpl. split.
     + apply Forall_app. split; [exact Hinv|]. constructor; [split; assumption|constructor].
-    + match goal with |- read_ok (_, option_map _ ?e) => destruct e end; exact I.
+    + first [exact I | match goal with |- read_ok (_, option_map _ ?e) => destruct e end; exact I].
 Qed.
 
 (** C14_location_current *)
